@@ -17,7 +17,10 @@ KeyOf(form, k, w) ==
       [] form = "hashed" -> IF w = 256 THEN [ok |-> TRUE, bits |-> BytesToBits(Sha256(k))] ELSE [ok |-> FALSE]
 
 \* expected map of a record: later items overwrite earlier ones with the same key
-Items(r) == [j \in 1..Len(r.items) |-> [k |-> KeyOf(r.form, r.items[j].key, r.w).bits, v |-> BitsOf(r.items[j].v)]]
+\* a value is given by its bits, or (maps built with with_coins_values) as an amount whose bits are the VarUInteger 16 encoding
+CoinsBits(x) == NatBits(MinBytesU(x), 4) \o BigUBits(x, 8 * MinBytesU(x))
+ValBits(it) == IF Has(it, "coins") THEN CoinsBits(it.coins) ELSE BitsOf(it.v)
+Items(r) == [j \in 1..Len(r.items) |-> [k |-> KeyOf(r.form, r.items[j].key, r.w).bits, v |-> ValBits(r.items[j])]]
 MapOf(r) == LET it == Items(r)  ks == {it[j].k : j \in 1..Len(it)}
             IN [k \in ks |-> [v |-> it[CHOOSE j \in 1..Len(it) : it[j].k = k /\ \A jj \in (j + 1)..Len(it) : it[jj].k # k].v, x |-> <<>>]]
 PairSet(mp) == {[k |-> k, v |-> mp[k].v] : k \in DOMAIN mp}
